@@ -29,7 +29,7 @@ def confirm(sid):
         rc, out = sh("git apply %s" % os.path.join(d, "patch.diff"), cwd=wt)
         assert rc == 0, out
         rc1, o1 = sh("/venv/bin/python %s" % demo, cwd=wt)
-        rct, ot = sh("/venv/bin/python -m pytest -q -p no:cacheprovider --timeout=900 tests 2>&1 | tail -12", cwd=wt)
+        rct, ot = sh("OMP_NUM_THREADS=1 MKL_NUM_THREADS=1 /venv/bin/python -m pytest -q -p no:cacheprovider --timeout=900 tests 2>&1 | tail -12", cwd=wt)
         print("%s: demo without change exit=%d, with change exit=%d" % (sid, rc0, rc1))
         print(ot.strip().splitlines()[-1])
         fails = [l for l in ot.splitlines() if l.startswith("FAILED") and "NaiveLinearTest" not in l and "test_random_orthogonal" not in l]
